@@ -506,15 +506,27 @@ Proof.
     + apply hedge_layer_pres.
 Qed.
 
+Lemma fire_ext_copies_len w e : length (w_copies (fire_ext w e)) = length (w_copies w).
+Proof.
+  unfold fire_ext, mark_done, set_copy_last.
+  destruct e; cbn [w_copies set_scopes];
+    repeat (match goal with |- context [match ?x with _ => _ end] => destruct x end; cbn [w_copies set_scopes set_copies set_cell]);
+    rewrite ?upd_length; reflexivity.
+Qed.
+
 Lemma fresh_world_Ts now ext key b l k c script : t0 = now -> Ts (fresh_world now ext key b l k c script) /\ okc 0 (fresh_world now ext key b l k c script).
 Proof.
-  intros E. split; [|unfold okc; cbn; lia].
-  constructor; cbn [fresh_world w_start w_now w_trace w_copies w_bg].
-  - symmetry. exact E.
-  - lia.
-  - constructor.
-  - constructor; [|constructor]. unfold cp_ok. cbn. lia.
-  - constructor.
+  intros E.
+  assert (H0 : Ts (fresh_world0 now ext key b l k c script)).
+  { constructor; cbn [fresh_world0 w_start w_now w_trace w_copies w_bg].
+    - symmetry. exact E.
+    - lia.
+    - constructor.
+    - constructor; [|constructor]. unfold cp_ok. cbn. lia.
+    - constructor. }
+  assert (C0 : okc 0 (fresh_world0 now ext key b l k c script)) by (unfold okc; cbn; lia).
+  unfold fresh_world. destruct ext as [[t e]|]; [|split; assumption]. destruct (t <=? now); [|split; assumption].
+  split; [apply Ts_fire_ext, H0|]. unfold okc in *. rewrite fire_ext_copies_len. exact C0.
 Qed.
 
 End T0.
